@@ -245,7 +245,7 @@ func (Op Addp) Op_instruction_verilog_extra_modules(arch *Arch, flavor string) (
 	result += "\n"
 	result += "endmodule\n"
 
-	return []string{"multiplier"}, []string{result}
+	return []string{"addp"}, []string{result}
 }
 
 func (Op Addp) AbstractAssembler(arch *Arch, words []string) ([]UsageNotify, error) {
